@@ -62,9 +62,6 @@ Definition agrees (k : case) : bool :=
   end.
 
 (** the guard of the guarded theorem, on the case *)
-Definition homogeneous (tg : list ws) : bool :=
-  match tg with [] => true | w0 :: _ => forallb (fun w => ws_rt w =? ws_rt w0) tg end.
-
 (** a variable record whose decoded time lies one or more whole seconds after the interval start *)
 Definition secs_inside (w : ws) : bool :=
   (ws_rt w =? RT_VARIABLE) &&
@@ -72,7 +69,7 @@ Definition secs_inside (w : ws) : bool :=
           (chunks (List.length (ws_payload w)) (Z.to_nat (ws_vrl w)) (ws_payload w)).
 
 Definition in_domain (k : case) : bool :=
-  forallb homogeneous (mk_tgs k) && negb (existsb (existsb secs_inside) (mk_tgs k))
+  negb (existsb (existsb secs_inside) (mk_tgs k))
   && run_okb get_ticks_pf dec_pf [] (mk_tgs k).
 
 (** the property evaluated on the model: the replica replays everything and has converged *)
